@@ -45,6 +45,10 @@ type writeTxn struct {
 
 var interfaceMapType = reflect.TypeOf(map[string]interface{}(nil))
 
+// errMissingID is returned on create with an empty ID, as the store does not
+// generate IDs.
+var errMissingID = errors.New("missing ID")
+
 // NewStore creates a new Store and initializes it.
 //
 // The type of typ will be used as value. If the type supports both the
@@ -144,6 +148,9 @@ func (wt *writeTxn) Close() error {
 // Exists returns true if the value exists in the store, or false in case or
 // read error or value does not exist.
 func (rt readTxn) Exists() bool {
+	if rt.id == "" {
+		return false
+	}
 	return rt.st.DB.View(func(txn *badger.Txn) error {
 		_, err := rt.st.getValue(txn, rt.rname)
 		return err
@@ -154,6 +161,9 @@ func (rt readTxn) Exists() bool {
 //
 // If the value does not exist, res.ErrNotFound is returned.
 func (rt readTxn) Value() (interface{}, error) {
+	if rt.id == "" {
+		return nil, res.ErrNotFound
+	}
 	if rt.v != nil {
 		return rt.v, nil
 	}
@@ -182,6 +192,9 @@ func (rt readTxn) ID() string {
 //
 // If a value already exists for the resource ID, id, an error is returned.
 func (wt writeTxn) Create(v interface{}) error {
+	if wt.id == "" {
+		return errMissingID
+	}
 	vv := reflect.ValueOf(v)
 	t := wt.st.t
 	if t == nil {
@@ -225,6 +238,9 @@ func (wt writeTxn) Create(v interface{}) error {
 //
 // If the value does not exist, res.ErrNotFound is returned.
 func (wt writeTxn) Update(v interface{}) error {
+	if wt.id == "" {
+		return res.ErrNotFound
+	}
 	vv := reflect.ValueOf(v)
 	t := wt.st.t
 	if t == nil {
@@ -273,6 +289,9 @@ func (wt writeTxn) Update(v interface{}) error {
 //
 // If the value does not exist, res.ErrNotFound is returned.
 func (wt writeTxn) Delete() error {
+	if wt.id == "" {
+		return res.ErrNotFound
+	}
 	var before interface{}
 	simAt("delete.beforeTxn", wt.id)
 	err := wt.st.DB.Update(func(txn *badger.Txn) error {
